@@ -613,15 +613,16 @@ func AddClient(group string, c Client, creds ClientCredentials) (*Group, error) 
 
 	clients := g.getClientsUnlocked(nil)
 
-	if !slices.Contains(c.Permissions(), "system") {
-		username, perms, err := g.description.GetPermission(
+	var username string
+	var perms []string
+	system := slices.Contains(c.Permissions(), "system")
+	if !system {
+		username, perms, err = g.description.GetPermission(
 			g.name, creds,
 		)
 		if err != nil {
 			return nil, err
 		}
-
-		c.Init(username, perms)
 
 		if !slices.Contains(perms, "op") {
 			if g.locked != nil {
@@ -679,6 +680,10 @@ func AddClient(group string, c Client, creds ClientCredentials) (*Group, error) 
 	}
 	if g.clients[id] != nil {
 		return nil, ProtocolError("duplicate client id")
+	}
+	if !system {
+		// only install the permissions once the client is admitted
+		c.Init(username, perms)
 	}
 	g.clients[id] = c
 	g.timestamp = time.Now()
